@@ -323,7 +323,10 @@ LayoutItems(ev) ==
         Item("elem_off", eq(ev.elem_off, PrefixSums(Rep, P))), Item("telem_off", eq(ev.telem_off, PrefixSums(DoF, P))) >>
 \* each Bundle operation returns exactly what the element operations return, placed at the offsets
 BelemItems(ev) ==
-  LET same(f, h) == IF ev[f] = ev[h] THEN 0 ELSE 2000000000
+  LET \* the property demands EQUALITY with the element-wise operation, not a particular evaluation order: a few unit
+      \* round-offs relative to the coefficient's magnitude are allowed (today's code forwards and is bit-identical)
+      same(f, h) == LET a == DV(ev[f])  b == DV(ev[h]) IN
+                    VRatio(a, b, [i \in 1..Len(b) |-> FAdd(FMul(FMulInt(UOf(ev), 8), FMax(O, FAbs(b[i]))), FloorOf(ev))])
   IN << Item("compose", same("compose", "e_compose")), Item("inverse", same("inverse", "e_inverse")),
         Item("between", same("between", "e_between")), Item("log", same("log", "e_log")), Item("exp", same("exp", "e_exp")),
         Item("rplus", same("rplus", "e_rplus")), Item("lminus", same("lminus", "e_lminus")) >>
